@@ -212,6 +212,7 @@ int main() {
             off += used;
             sval v; memset(&v, 0, sizeof v);
             if (a[0] == 'n') { v.tag = LUA_TNUMBER; v.num = atof(a + 1); }
+            else if (a[0] == 'i') { v.tag = LUA_TNUMBER; v.isint = 1; v.inum = (long long) strtoull(a + 1, NULL, 10); v.num = (double) v.inum; }
             else if (a[0] == 'b') { v.tag = LUA_TBOOLEAN; v.num = atoi(a + 1); }
             else if (a[0] == 's') { v.tag = LUA_TSTRING; strncpy(v.str, a + 1, sizeof v.str - 1); }
             else if (a[0] == 'u') { v = objs[atoi(a + 1)]; }
@@ -226,7 +227,8 @@ int main() {
             for (int i = stub_top(L) - r + 1; i <= stub_top(L); i++) {
                 sval *v = stub_at(L, i);
                 if (!v) { std::printf(" ?"); continue; }
-                if (v->tag == LUA_TNUMBER) std::printf(" n%g", v->num);
+                if (v->tag == LUA_TNUMBER && v->isint && (v->inum > 9007199254740992LL || v->inum < -9007199254740992LL)) std::printf(" i%llu", (unsigned long long) v->inum);
+                else if (v->tag == LUA_TNUMBER) std::printf(" n%g", v->num);
                 else if (v->tag == LUA_TBOOLEAN) std::printf(" b%d", (int) v->num);
                 else if (v->tag == LUA_TSTRING) std::printf(" s%s", v->str);
                 else if (v->tag == LUA_TUSERDATA) { objs[nobjs] = *v; std::printf(" u%d:%s", nobjs, v->meta); nobjs++; }
@@ -260,6 +262,60 @@ def build(ctx, lib, tag):
     if rc != 0:
         return None, "compile failed: " + out[-2000:]
     return os.path.join(d, "drv"), ""
+
+
+WIDE = [("echo_u64", "uint64_t"), ("echo_ull", "unsigned long long"), ("echo_ll", "long long"), ("echo_i64", "int64_t"),
+        ("echo_l", "long"), ("echo_sz", "size_t")]
+
+
+def wide_integers(ctx):
+    """Integer arguments and results that a double cannot hold (above 2^53): the library receives the caller's integer and the
+    caller receives the library's, bit for bit (Lua 5.3 integers are 64 bits wide; the stub keeps them so)."""
+    import corpus
+    import subprocess
+    import yaml
+    d = os.path.join(ctx.bdir, "lua", "wide")
+    os.makedirs(d, exist_ok=True)
+    hpp = "#pragma once\n#include <stdint.h>\n#include <stddef.h>\n" + "".join("%s %s(%s v);\n" % (t, n, t) for n, t in WIDE) + \
+          "uint64_t scale64(uint64_t v, int k = 1);\n"
+    cpp = '#include <cstdio>\n#include "tlib.hpp"\n' + "".join(
+        '%s %s(%s v) { std::printf("CALL %s %%llu\\n", (unsigned long long) v); return v; }\n' % (t, n, t, n) for n, t in WIDE) + \
+        'uint64_t scale64(uint64_t v, int k) { std::printf("CALL scale64 %llu %d\\n", (unsigned long long) v, k); return v - (uint64_t) k; }\n'
+    open(os.path.join(d, "tlib.hpp"), "w").write(hpp)
+    open(os.path.join(d, "tlib.cpp"), "w").write(cpp)
+    yaml.safe_dump({"library": "tlib", "cxx_header": "tlib.hpp", "options": {"wrap_lua": True, "wrap_fortran": False, "wrap_c": False, "wrap_python": False},
+                    "declarations": [{"decl": "%s %s(%s v)" % (t, n, t)} for n, t in WIDE] + [{"decl": "uint64_t scale64(uint64_t v, int k = 1)"}]},
+                   open(os.path.join(d, "tlib.yaml"), "w"), sort_keys=False)
+    od = os.path.join(d, "out")
+    rc, out = corpus.run_shroud(os.path.join(d, "tlib.yaml"), od)
+    if rc != 0:
+        ctx.broken.append(("correspondence", "lua-wide-integers-generate", out[-1200:]))
+        return
+    stub = os.path.join(vlib.VERIF, "tools", "cgen", "lua")
+    open(os.path.join(d, "driver.cpp"), "w").write(DRIVER)
+    rc, out = vlib.sh("gcc -c -w -I%s %s/luastub.c -o luastub.o && "
+                      "g++ -std=c++11 -w -fpermissive -I%s -I%s -I. driver.cpp tlib.cpp %s/luatlibmodule.cpp luastub.o -o drv"
+                      % (stub, stub, stub, od, od), cwd=d, timeout=300)
+    if rc != 0:
+        ctx.broken.append(("correspondence", "lua-wide-integers-compile", out[-2000:]))
+        return
+    vals = [9007199254740993, 9007199254740995, 2 ** 62 + 1, 2 ** 63 - 1, 12345]
+    for n, t in WIDE + [("scale64", "uint64_t")]:
+        for v in vals:
+            stacks = [["i%d" % v]] + ([["i%d" % v, "n3"]] if n == "scale64" else [])
+            for st in stacks:
+                p = subprocess.run([os.path.join(d, "drv")], input="module %s %d %s\n" % (n, len(st), " ".join(st)), capture_output=True, text=True)
+                ctx.count(1, ("wide", n, v, len(st)))
+                ctx.hist("wide-integer:" + t.replace(" ", "-"))
+                k = 3 if len(st) == 2 else 1
+                r = v - k if n == "scale64" else v
+                exp = ["CALL %s %d" % (n, v) + ((" %d" % k) if n == "scale64" else ""), "RET 1 " + (("i%d" % r) if r > 2 ** 53 else ("n%g" % r))]
+                got = p.stdout.strip().split("\n")
+                if got != exp:
+                    ctx.violation("failing-input", {"what": "an integer argument or result above 2^53 does not pass through the Lua binding unchanged",
+                                                    "function": "%s %s(%s v%s)" % (t, n, t, ", int k = 1" if n == "scale64" else ""), "stack": st,
+                                                    "expected": exp, "observed": got})
+                    return
 
 
 # ----------------------------------------------------------------- stacks and expectations
@@ -452,6 +508,7 @@ def run(ctx):
                     ctx.violation("failing-input", {"what": o["what"], "input": {"library_yaml": open(os.path.join(ctx.bdir, "lua", "L%d" % lib["idx"], "tlib.yaml")).read(),
                                   "table": table, "function": name, "stack": vals}, "observed": got, "class": o.get("class")})
         ctx.traces += 1
+    wide_integers(ctx)
     ctx.sample({"library": libs[0]["funcs"][:2], "note": "see tools/props/C18.py gen_library"})
 
 
